@@ -24,7 +24,7 @@ if os.environ.get('BFG9000_VERIF') == '1':
         _fk = int(_fk)
     _n = [0]
     _open, _remove, _utime = builtins.open, os.remove, os.utime
-    _makedirs, _rename = os.makedirs, os.rename
+    _makedirs, _rename, _replace = os.makedirs, os.rename, os.replace
 
     def _inside(path):
         try:
@@ -123,3 +123,13 @@ if os.environ.get('BFG9000_VERIF') == '1':
         _point('rename', rel, 'post')
         return r
     os.rename = rename
+
+    def replace(a, b, *args, **kwargs):
+        rel = _inside(b)
+        if rel is None:
+            return _replace(a, b, *args, **kwargs)
+        _point('replace', rel, 'pre')
+        r = _replace(a, b, *args, **kwargs)
+        _point('replace', rel, 'post')
+        return r
+    os.replace = replace
